@@ -166,6 +166,58 @@ int ops_misc(char **args, int na)
 		free(f); free(cf); unlink(path); unlink(cpath);
 		return 0;
 	}
+	if (!strcmp(op, "tool.verify") && na == 2) {
+		/* run the repository's mtbl_verify (built from the working tree) on a blob */
+		struct obj *b = getobj(args[1], K_BLOB); if (!b) return -1;
+		extern char vf_tooldir[];
+		char cmd[900]; snprintf(cmd, sizeof cmd, "%s/mtbl_verify '%s' 2>/dev/null", vf_tooldir, b->path);
+		fflush(stdout);
+		FILE *p = popen(cmd, "r"); if (!p) return -1;
+		char out[4096]; size_t got = fread(out, 1, sizeof out - 1, p); out[got] = 0;
+		int st = pclose(p);
+		const char *verdict = strstr(out, ": OK") ? "OK" : strstr(out, ": FAILED") ? "FAILED" : "none";
+		if (WIFEXITED(st) && WEXITSTATUS(st) == 0) printf("verify %s exit=0\n", verdict);
+		else if (WIFEXITED(st) && WEXITSTATUS(st) == 1) printf("verify %s exit=1\n", verdict);
+		else if (WIFEXITED(st) && (WEXITSTATUS(st) == 134 || WEXITSTATUS(st) == 128 + SIGABRT)) printf("verify %s abort\n", verdict);
+		else if (WIFEXITED(st) && WEXITSTATUS(st) == 99) printf("verify %s asan\n", verdict);
+		else printf("verify %s status=%d\n", verdict, st);
+		return 0;
+	}
+	if (!strcmp(op, "rv.read") && na >= 2) {
+		/* a verifying (or not) reader in a child process: how many entries come out before it ends, and how it ends */
+		struct obj *b = getobj(args[1], K_BLOB); if (!b) return -1;
+		int verify = (int)kvnum(args + 2, na - 2, "verify", 1);
+		const char *gk = kv(args + 2, na - 2, "get");
+		int pfd[2]; if (pipe(pfd)) return -1;
+		fflush(stdout);
+		pid_t pid = fork();
+		if (pid == 0) {
+			close(pfd[0]);
+			int devnull = open("/dev/null", O_WRONLY); if (devnull >= 0) dup2(devnull, 2);
+			struct mtbl_reader_options *ro = mtbl_reader_options_init();
+			mtbl_reader_options_set_verify_checksums(ro, verify);
+			struct mtbl_reader *r = mtbl_reader_init(b->path, ro);
+			if (!r) _exit(11);
+			struct mtbl_iter *it;
+			if (gk) { uint8_t *k; size_t kl; if (unhex(gk, &k, &kl)) _exit(3); it = mtbl_source_get(mtbl_reader_source(r), k, kl); }
+			else it = mtbl_source_iter(mtbl_reader_source(r));
+			const uint8_t *k, *v; size_t kl, vl; long n = 0;
+			FILE *p = fdopen(pfd[1], "w");
+			while (mtbl_iter_next(it, &k, &kl, &v, &vl) == mtbl_res_success) {
+				n++; fprintf(p, "%ld ", n); puthex(p, k, kl); fputc('\n', p); fflush(p);
+			}
+			_exit(10);
+		}
+		close(pfd[1]);
+		FILE *p = fdopen(pfd[0], "r"); char line[70000]; long n = 0; char last[70000] = "-";
+		while (fgets(line, sizeof line, p)) { char kk[70000]; if (sscanf(line, "%ld %69999s", &n, kk) == 2) strcpy(last, kk); }
+		fclose(p);
+		int st = 0; waitpid(pid, &st, 0);
+		const char *end = (WIFEXITED(st) && WEXITSTATUS(st) == 10) ? "eof" : (WIFEXITED(st) && WEXITSTATUS(st) == 11) ? "null" :
+				  (WIFSIGNALED(st) && WTERMSIG(st) == SIGABRT) ? "abort" : (WIFEXITED(st) && WEXITSTATUS(st) == 99) ? "asan" : "crash";
+		printf("read %ld %s %s\n", n, last, end);
+		return 0;
+	}
 	if (!strcmp(op, "cz.libinfo")) {
 		printf("lib zstdmin=%d zstdmax=%d\n", ZSTD_minCLevel(), ZSTD_maxCLevel()); return 0;
 	}
